@@ -73,6 +73,7 @@ class Ctx(object):
         self.unknown_feasibility = False
         self._fixed = {}
         self.numpy_division = False  # harness switch: numpy 0-division
+        self.max_concretize = 64
 
     # -- variables ---------------------------------------------------------
     def _reg(self, name, c):
@@ -186,7 +187,12 @@ class Ctx(object):
         key = e.get_id()
         if key in self._fixed:
             return self._fixed[key][1]
+        tries = 0
         while True:
+            tries += 1
+            if tries > self.max_concretize:
+                raise PathLimit('more than %d values for one concretised '
+                                'expression' % self.max_concretize)
             i = len(self.decisions)
             if i < len(self.prefix):
                 kind, v = self.prefix[i]
